@@ -91,9 +91,9 @@ def replay_case(item):
             row['f1'] = None
             return True
         return False
-    def custom5r(res_name, row, i, e, field):
-        calls.append([i, {'f1': 1, 'f2': 2}.get(getattr(field, 'name', None), 0)])
-        if field is not None and field.name == 'f2':
+    def custom5r(res_name, row, i, e, which):        # (the fifth parameter has a name of its own: handlers are told apart by their arity)
+        calls.append([i, {'f1': 1, 'f2': 2}.get(getattr(which, 'name', None), 0)])
+        if which is not None and which.name == 'f2':
             row['f2'] = None
             return True
         return False
